@@ -128,6 +128,10 @@ fn mk_cases(thorough: bool) -> Vec<ECase> {
     add("fixed3mtu/W1/handshake", &|c| { c.client.controller = Ctl::Fixed(3600); c.server.controller = Ctl::Fixed(3600); c.cert_len = 6000; }, Wl::W1, vec![], (0, 20));
     add("cubic/W6/rebind@30", &|_| {}, Wl::W6, vec![(30, Op::Rebind(CLIENT, addr(9)))], (26, 44));
     add("fixed3mtu/W6/migrate@30", &|c| c.client.controller = Ctl::Fixed(3600), Wl::W6, vec![(30, Op::Rebind(CLIENT, addr(9))), (30, Op::LocalAddrChanged(CLIENT))], (26, 44));
+    // a migration that never validates (spoofed source): the server falls back to the old path;
+    // packets sent to the abandoned path must leave the accounting exactly once
+    add("cubic/W6/spoofed-path@30", &|_| {}, Wl::W6, vec![(30, Op::SpoofedCopy(addr(8)))], (26, 44));
+    add("fixed10mtu/W6/spoofed-path@24+@40", &|c| { c.client.controller = Ctl::Fixed(12_000); c.server.controller = Ctl::Fixed(12_000); }, Wl::W6, vec![(24, Op::SpoofedCopy(addr(8))), (40, Op::SpoofedCopy(addr(7)))], (22, 40));
     add("cubic/W6/keyupd@25", &|_| {}, Wl::W6, vec![(25, Op::KeyUpdate(CLIENT))], (20, 40));
     add("cubic/W5", &|_| {}, Wl::W5, vec![], (8, 28));
     let _ = (Dir::Uni, End::Finish, StreamPlan { dir: Dir::Uni, len: 0, chunk: 1, end: End::Open }, Plan::default());
